@@ -18,7 +18,6 @@ def body(c):
     issues, stats = netdata.run(c, exe, c.tier, c.seed, modes=("conv",),
                                 family_prop="C05")
     for it in issues:
-        it.props.add("C05")
         c.issue(it)
     c.add_part("netdata_conv_traces", stats)
     c.cov["traces_validated_against_impl"] = stats["episodes"]
